@@ -104,10 +104,20 @@ SKELETONS = {
             "left": {"type": "object", "title": "Left", "properties": {"child": {"type": "object", "title": "LeftChild", "required": ["k"]}}},
             "right": {"type": "object", "title": "Right", "properties": {"child": {"type": "object", "title": "RightChild", "required": ["k"]}}}}}},
         "doc.json", '{"apples": [{"n": x}], **({"pears": [{"n": y}, {"n": x}]} if h1 else {}), **({"left": {"child": {"k": x}}, "right": {"child": ({"k": y} if y > 0 else {})}} if h2 else {})}'),
+    "nested_literals": ({"doc.json": {
+        "type": "object", "title": "Root", "properties": {
+            "deep": {"const": {"a": {"b": [{"c": 1}]}}},
+            "choice": {"enum": [{"on": {"level": 3}}, {"off": {}}, [{"k": {"j": 1}}]]},
+            "n": {"type": "integer", "default": 0}},
+        "default": {"deep": {"a": {"b": [{"c": 1}]}}, "n": 1}}},
+        "doc.json", '{**({"deep": {"a": {"b": [{"c": (1 if h2 else x)}]}}} if h1 else {"choice": ({"on": {"level": 3}} if h2 else {"on": {"level": x}})}), "n": y}'),
     "pointer_entry": ({"doc.json": {"definitions": {"Entry": {"type": "object", "properties": {"k": {"$ref": "#/definitions/K"}}, "required": ["k"]},
                                                     "K": {"type": "object", "properties": {"n": {"type": "integer", "minimum": 2}}}}}},
                       "doc.json#/definitions/Entry", '{"k": ({"n": x} if h1 else {"m": y}), **({"z": y} if h2 else {})}'),
 }
+
+# single-file skeletons without C01-level known deviations: the generated root is also compared with ref6 on the source
+REF6_SKELETONS = {"root_def_def", "shared_def", "untitled_nested", "repeated_titles", "nested_literals", "equal_shapes_different_titles", "boolean_subschemas"}
 
 _CNT = [0]
 
@@ -207,6 +217,13 @@ def equivalent(name, v):
     a2, r2 = verdict(g, jcopy(v))
     if a1 != a2:
         return False
+    if name in REF6_SKELETONS:
+        # independent oracle: the SOURCE document (not the labelled/materialised one) under ref6
+        from vf.common import ref6, deref
+
+        files, entry, _ = SKELETONS[name]
+        if ref6(deref(files[entry]), jcopy(v)) != a1:
+            return False
     if a1 and not result_eq(r1, r2):
         return False
     return True
@@ -221,7 +238,7 @@ def accepted(name, v):
 
 def harnesses(ctx) -> List[H]:
     hs: List[H] = []
-    quick = {"root_def_def", "shared_def", "cross_file", "untitled_nested", "repeated_titles", "defaults_equal_to_constructor", "renamed_and_literals", "boolean_subschemas", "false_only_in_single_positions", "equal_shapes_different_titles"}
+    quick = {"root_def_def", "shared_def", "cross_file", "untitled_nested", "repeated_titles", "defaults_equal_to_constructor", "renamed_and_literals", "boolean_subschemas", "false_only_in_single_positions", "equal_shapes_different_titles", "nested_literals"}
     for name, (_files, _entry, build) in SKELETONS.items():
         hs.append(mk(f"c02_{name}", "x: int, y: int, h1: bool, h2: bool", [], f"v = {build}\nreturn equivalent({name!r}, v)", timeout=200, group="skeleton",
                      tier="quick" if name in quick else "thorough", covers=f"skeleton {name}: main() output executes, defines the parser's classes (equal), root verdict/result equal for the value family {build}"))
